@@ -80,8 +80,11 @@ func (k Keeper) ChangeExecutor(ctx context.Context, plan types.ExecutorChangePla
 		return err
 	}
 	params.BridgeExecutors = plan.NextExecutors
-	if err := k.SetParams(ctx, params); err != nil {
+
+	// the validators zeroed above are only purged by the validator set update at the end of this block,
+	// so the MaxValidators bound of SetParams must not be evaluated against them
+	if err := params.Validate(k.authKeeper.AddressCodec()); err != nil {
 		return err
 	}
-	return nil
+	return k.Params.Set(ctx, params)
 }
